@@ -71,8 +71,8 @@ theorem not_mem_of_status_none {msgs : List Entry} {h : List Ev} (hc : Core msgs
 
 theorem core_add {msgs : List Entry} {h : List Ev} (hc : Core msgs h) {x : Nat}
     (hx : status h x = .none) {ev : Ev} (hs : Single ev x) {a : Nat} {loc : Loc}
-    (hst : evSt ev x .none = locSt loc) (ha : a = nDeliver (ev :: h) x) :
-    Core (⟨x, a, loc⟩ :: msgs) (ev :: h) := by
+    (hst : evSt ev x .none = locSt loc) (ha : a = nDeliver (ev :: h) x) (env : Env) :
+    Core ({ id := x, att := a, loc := loc, env := env } :: msgs) (ev :: h) := by
   have hfresh := not_mem_of_status_none hc hx
   refine ⟨?_, ?_, ?_⟩
   · simp only [List.map_cons, List.nodup_cons, List.mem_map, not_exists, not_and]
@@ -369,17 +369,17 @@ theorem nDeliver_zero_of_status_none {h : List Ev} {id : Nat} (hs : status h id 
 theorem outstanding_fanout (x : Nat) (d : Bool) (h : List Ev) (k : Nat) :
     outstanding (.fanout x d :: h) k = outstanding h k := rfl
 
-theorem inv_put (conf : Conf) {c : Chan} (hi : Inv 0 c) (id : Nat) : Inv 0 (step conf c (.put id)).1 := by
+theorem inv_put (conf : Conf) {c : Chan} (hi : Inv 0 c) (id : Nat) (env : Env) : Inv 0 (step conf c (.put id env)).1 := by
   simp only [step]
   split
   · exact hi
   · rename_i hcond
     simp only [bne_iff_ne, ne_eq, Bool.or_eq_true, not_or, Decidable.not_not, Bool.not_eq_true] at hcond
     have hnone := status_none_of_nFanout_zero hi.okh hcond.1
-    apply inv_enqueue (e := ⟨id, 0, .queued⟩) ?_ (by simp) rfl rfl
+    apply inv_enqueue (e := { id := id, att := 0, loc := .queued, env := env }) ?_ (by simp) rfl rfl
     have hz : nDeliver c.hist id = 0 := nDeliver_zero_of_status_none hnone
     exact {
-      core := core_add hi.core hnone (single_fanout id false) (by simp [evSt, locSt]) (by simp [nDeliver, hz])
+      core := core_add hi.core hnone (single_fanout id false) (by simp [evSt, locSt]) (by simp [nDeliver, hz]) env
       okh := by simp [okHist, okEv, hnone, hi.okh]
       counts := by have := hi.counts; simp [nQueued, List.countP_cons, isQueued] at this ⊢; omega
       memcap := hi.memcap, eph := hi.eph
@@ -393,8 +393,8 @@ theorem inv_put (conf : Conf) {c : Chan} (hi : Inv 0 c) (id : Nat) : Inv 0 (step
       cl := fun cl hcl => clOk_neutral (clNeutral_fanout _ _) (hi.cl cl hcl) }
 
 
-theorem inv_putDeferred (conf : Conf) {c : Chan} (hi : Inv 0 c) (id : Nat) (pri : Int) :
-    Inv 0 (step conf c (.putDeferred id pri)).1 := by
+theorem inv_putDeferred (conf : Conf) {c : Chan} (hi : Inv 0 c) (id : Nat) (pri : Int) (env : Env) :
+    Inv 0 (step conf c (.putDeferred id pri env)).1 := by
   simp only [step]
   split
   · exact hi
@@ -403,7 +403,7 @@ theorem inv_putDeferred (conf : Conf) {c : Chan} (hi : Inv 0 c) (id : Nat) (pri 
     have hnone := status_none_of_nFanout_zero hi.okh hcond.1
     have hz : nDeliver c.hist id = 0 := nDeliver_zero_of_status_none hnone
     exact {
-      core := core_add hi.core hnone (single_fanout id true) (by simp [evSt, locSt]) (by simp [nDeliver, hz])
+      core := core_add hi.core hnone (single_fanout id true) (by simp [evSt, locSt]) (by simp [nDeliver, hz]) env
       okh := by simp [okHist, okEv, hnone, hi.okh]
       counts := by have := hi.counts; simp [nQueued, List.countP_cons, isQueued] at this ⊢; omega
       memcap := hi.memcap, eph := hi.eph
@@ -1082,8 +1082,8 @@ theorem inv_foldl {f : Chan → Nat → Chan} (hf : ∀ c id, Inv 0 c → Inv 0 
 /-- **the one-step preservation lemma**: every operation (micro-steps included) preserves `Inv` -/
 theorem step_inv (conf : Conf) {c : Chan} (hi : Inv 0 c) (op : Op) : Inv 0 (step conf c op).1 := by
   cases op with
-  | put id => exact inv_put conf hi id
-  | putDeferred id pri => exact inv_putDeferred conf hi id pri
+  | put id env => exact inv_put conf hi id env
+  | putDeferred id pri env => exact inv_putDeferred conf hi id pri env
   | addClient k mt sm => exact inv_addClient conf hi k mt sm
   | removeClient k => exact inv_removeClient conf hi k
   | rdy k n => exact inv_rdy conf hi k n
